@@ -167,6 +167,51 @@ def r12_4(chk, facts):
                 ', '.join(sorted(opts)), ', '.join(sorted(ref)), '' if {'nodups', 'path'} <= opts else ' (nodups and path are required: without nodups a node selected twice is replaced twice)'),
                 {'options': sorted(opts), 'siblings': sorted(ref)}, fn['q'])
 
+def r12_5(chk, tier, units=('jsonpath',)):
+    """Accumulator reset: the slice accumulator of the expression compilers is re-initialised after each use."""
+    chk.rule('R12.5', 'slice accumulator: after the compiler hands the accumulated slice to a selector/projection, every path back to the main '
+                      'loop re-initialises the accumulator (otherwise the next slice of the same expression inherits start/stop/step)', floor=2 * len(units))
+    table = {'jsonpath': ('jsonpath_parser.hpp', 'compile'), 'jmespath': ('jmespath.hpp', 'compile')}
+    n = 0
+    for unit in units:
+        facts = F.load([unit], tier)
+        if unit not in chk.units: chk.units.append(unit)
+        hdr, fname = table[unit]
+        fns = {}
+        for f in facts.functions:
+            if f['file'].endswith(hdr) and f['n'] == fname and f.get('body') is not None and not f.get('dep'): fns.setdefault((f['file'], f['l']), f)
+        for fn in fns.values():
+            # the accumulator: a local of class type `slice`
+            acc = [x for x in A.walk_no_lambda(fn['body']) if x.get('k') == 'VarDecl' and fn['_types'][x['t'] - 1].split('::')[-1] == 'slice']
+            if not acc: continue
+            chk.analysed(fn)
+            aid = acc[0].get('id'); an = acc[0].get('n')
+            g = C.CFG(fn['body'])
+            def is_acc(e):
+                s2 = A.strip(e, casts=True)
+                return s2 is not None and s2.get('k') == 'DeclRefExpr' and s2.get('id') == aid
+            resets = []; uses = []
+            for nd in g.rpo:
+                if nd.kind not in ('stmt', 'cond', 'return') or not isinstance(nd.ast, dict): continue
+                for x in A.walk_no_lambda(nd.ast):
+                    if x.get('k') in A.CALLS and x.get('oop') == '=' and x.get('args') and is_acc(x['args'][0]): resets.append(nd)
+                    elif x.get('k') == 'BinaryOperator' and x.get('op') == '=' and is_acc(x.get('lhs')): resets.append(nd)
+                    elif x.get('k') in ('CXXConstructExpr', 'CXXTemporaryObjectExpr', 'CXXFunctionalCastExpr') or x.get('k') in A.CALLS:
+                        if x.get('oop') == '=': continue
+                        if any(is_acc(a) for a in x.get('args') or []) and not (x.get('k') == 'CXXConstructExpr' and 'slice' == fn['_types'][x['t'] - 1].split('::')[-1]):
+                            if nd not in uses: uses.append(nd)
+            # loop heads: join nodes with a back edge = the cond of the main while loop
+            heads = [nd for nd in g.rpo if nd.kind == 'join' and any(g.dominates(nd, p) for p in nd.pred)]
+            chk.require(heads, 'R12.5: main loop of %s not found' % fn['q'])
+            for i, u in enumerate(sorted(uses, key=lambda x: x.line)):
+                n += 1
+                site = U.site(fn, '%s consumed #%d' % (an, i + 1))
+                bad = any(g.can_reach(s2, heads, avoid=resets) for s2 in u.succ) if u not in resets else False
+                if not bad: chk.ok('R12.5', site, {'line': u.line, 'resets': sorted(r.line for r in resets)})
+                else: chk.fail('R12.5', site, fn['file'], u.line, '%s: `%s` is handed on at line %s and the main loop is reached again without `%s = slice{}`: the next slice of the expression starts from the old values' % (
+                    fn['n'], an, u.line, an), {'resets': sorted(r.line for r in resets)}, fn['q'])
+    chk.require(n >= 2 * len(units), 'R12.5: only %d consumptions of a slice accumulator found' % n)
+
 def run(chk, tier, only_rule=None):
     chk.explanation = EXPLANATION
     chk.not_decided = NOT_DECIDED
@@ -262,5 +307,6 @@ def run(chk, tier, only_rule=None):
     c05.r05_5(chk, tier)
     r12_3(chk, tier)
     r12_4(chk, facts)
+    r12_5(chk, tier)
     c05.r05_6(chk, tier, units=['jsonpath'], floor=80)
     c05.r05_7(chk, tier, units=['jsonpath'], floor=100)
